@@ -730,3 +730,22 @@ assign_bed = Contract(
                  'handed over by create_count_table (its BED loop has its own unit); the table starts empty'],
 )
 UNITS += [assign_single, assign_bed]
+
+
+assign_byvalue = Contract(
+    PROP, F + '::assignReads', name='assignReads[-byValue NM, joined feature reference_name]',
+    params={'read': assign_read, 'countTable': count_table, 'args': assign_args_with({'byValue': 'NM'}),
+            'joinFeatures': ('const', True), 'featureTags': ('const', ['reference_name', 'NM']), 'sampleTags': ('const', ['SM']),
+            'more_args': ('const', []), 'blacklist_dic': 'none'},
+    setup=assign_setup,
+    requires=['read.has_tag("SM")', 'read.has_tag("NM")', 'read.get_tag("NM") >= 0'],
+    ensures={
+        'nothing_counted_when_filtered': 'implies(not PASSES, len(countTable) == 0 and result == 0)',
+        'the_numeric_value_of_the_tag_is_added_under_the_other_features':
+            'implies(PASSES, len(countTable) == 1 and all(s == %s and len(countTable[s]) == 1 and '
+            'countTable[s]["chrA"] == read.get_tag("NM") for s in countTable))' % SAMPLE,
+    },
+    raises={},
+    assumptions=['configuration: -byValue NM -joinedFeatureTags reference_name,NM; float(str(n)) == n for an integer tag (A3)'],
+)
+UNITS.append(assign_byvalue)
